@@ -238,6 +238,8 @@ pub struct Repair<N: Network> {
     blockstore: SharedBlockstore,
     pool: SharedPool,
     slice_roots: BTreeMap<(BlockId, SliceIndex), SliceRoot>,
+    /// Index of the last slice of each block under repair, as proven by a peer.
+    last_slices: BTreeMap<BlockId, SliceIndex>,
     outstanding_requests: BTreeMap<Hash, RepairRequestType>,
     /// Expiry times of outstanding requests, earliest first (min-heap via [`Reverse`]).
     request_timeouts: BinaryHeap<Reverse<(Instant, Hash)>>,
@@ -266,6 +268,7 @@ where
             blockstore,
             pool,
             slice_roots: BTreeMap::new(),
+            last_slices: BTreeMap::new(),
             outstanding_requests: BTreeMap::new(),
             request_timeouts: BinaryHeap::new(),
             network,
@@ -377,6 +380,7 @@ where
                 // store slice Merkle root
                 self.slice_roots
                     .insert((block_id.clone(), last_slice), root);
+                self.last_slices.insert(block_id.clone(), last_slice);
 
                 // issue next requests
                 // TODO: do not request last slice root again
@@ -431,6 +435,16 @@ where
                 let Some(root) = self.slice_roots.get(&(block_id.clone(), slice)) else {
                     unreachable!("issued repair request (Shred) before knowing slice root");
                 };
+                // The last-slice flag is covered by the leader's signature but not by the
+                // slice root. A Byzantine leader can thus sign the same slice with either flag.
+                // Only the flag matching the proven last slice index belongs to this block.
+                let Some(last_slice) = self.last_slices.get(block_id) else {
+                    unreachable!("issued repair request (Shred) before knowing last slice");
+                };
+                if shred.payload().header.is_last != (slice == *last_slice) {
+                    warn!("repair response (Shred) with last-slice flag not matching proven last slice");
+                    return;
+                }
                 let leader_pk = &self.epoch_info.epoch_info().leader(*slot).pubkey;
                 // shred for the wrong slice root, don't even try to verify signature
                 if &shred.slice_root() != root {
